@@ -215,9 +215,10 @@ func (c *checkPointer) convertCheckPoint(cp *checkpoint, isStream bool) (err err
 
 // convertCheckPoint convert values in checkpoint to streamReader if needed
 func (c *checkPointer) restoreCheckPoint(cp *checkpoint, isStream bool) (err error) {
-	for _, ch := range cp.Channels {
+	for target, ch := range cp.Channels {
+		target := target
 		err = ch.convertValues(func(m map[string]any) error {
-			return c.sc.restoreOutputs(isStream, m)
+			return c.sc.restoreOutputs(isStream, m, target)
 		})
 		if err != nil {
 			return err
@@ -255,8 +256,24 @@ func (s *streamConverter) convertOutputs(isStream bool, values map[string]any) e
 	return convert(values, s.outputPairs, isStream)
 }
 
-func (s *streamConverter) restoreOutputs(isStream bool, values map[string]any) error {
-	return restore(values, s.outputPairs, isStream)
+// restoreOutputs restores the values held by the channel of node target (keyed by the node that wrote them).
+func (s *streamConverter) restoreOutputs(isStream bool, values map[string]any, target string) error {
+	if !isStream {
+		return nil
+	}
+	targetPair := s.inputPairs[target]
+	pairs := make(map[string]streamConvertPair, len(values))
+	for key, v := range values {
+		convPair, ok := s.outputPairs[key]
+		if !ok {
+			continue // reported by restore
+		}
+		if v != nil {
+			convPair = pairWrittenToTarget(reflect.TypeOf(v), convPair, targetPair)
+		}
+		pairs[key] = convPair
+	}
+	return restore(values, pairs, isStream)
 }
 
 // A value written to a channel through the field mapping of a workflow edge is no longer of the
@@ -267,6 +284,26 @@ var mappedFragmentConvertPair = defaultStreamConvertPair[map[string]any]()
 func isMappedFragment(actual reflect.Type, convPair streamConvertPair) bool {
 	return actual == mappedFragmentConvertPair.elemType && convPair.elemType != nil &&
 		convPair.elemType != actual && convPair.elemType.Kind() != reflect.Interface
+}
+
+// A value written to a channel by a node whose output type is an interface, over an edge into a node of
+// a concrete input type, is no longer a stream of the source's output type either: it has passed the
+// run-time type check of that edge, which makes it a stream of the target's input type, or the field
+// mapping of a workflow edge, which makes it a stream of map[string]any fragments. The channel merges it
+// with the streams of the target's other predecessors, and only streams of one chunk type can be
+// merged, so such a value is restored as the stream it was.
+func pairWrittenToTarget(actual reflect.Type, convPair, targetPair streamConvertPair) streamConvertPair {
+	if convPair.elemType == nil || convPair.elemType.Kind() != reflect.Interface ||
+		targetPair.elemType == nil || targetPair.elemType.Kind() == reflect.Interface {
+		return convPair
+	}
+	if actual == targetPair.elemType && targetPair.restoreStream != nil {
+		return targetPair
+	}
+	if actual == mappedFragmentConvertPair.elemType {
+		return mappedFragmentConvertPair
+	}
+	return convPair
 }
 
 func convert(values map[string]any, convPairs map[string]streamConvertPair, isStream bool) error {
